@@ -158,6 +158,7 @@ class Scheduler:
         self._main_gate.acquire()
         self.switch_sites = []  # (task, file:line) digest input
         self._first = first
+        self.hung = False
 
     # -- tracing ------------------------------------------------------------
     def _make_tracer(self, task):
@@ -231,7 +232,7 @@ class Scheduler:
         else:
             self._main_gate.release()
 
-    def run(self, fns):
+    def run(self, fns, timeout=None):
         self.tasks = [Task(i, fn) for i, fn in enumerate(fns)]
         threads = []
         for t in self.tasks:
@@ -252,7 +253,12 @@ class Scheduler:
         self.decisions.append([0, first])
         self.cur = first
         self.tasks[first].gate.release()
-        self._main_gate.acquire()
+        if timeout is None:
+            self._main_gate.acquire()
+        elif not self._main_gate.acquire(timeout=timeout):
+            # a task never finished: the run is abandoned (threads are daemons)
+            self.hung = True
+            return self.tasks
         for th in threads:
             th.join()
         return self.tasks
